@@ -14,7 +14,8 @@
       (running, NULL, n_jobs + NU) and every staged group (running, NULL, n_jobs + SUM of ITS staging rows of THIS update); otherwise
       (already committed, count mismatch, empty update) nothing moves
   R5  readers: the API getters / listings take the four tallies from job_groups_n_jobs_in_complete_states joined on the entity's own
-      (batch_id, job_group_id), and the record->dict functions copy them (and n_jobs) unmodified; `complete` is state == 'complete'
+      (batch_id, job_group_id) - every query of the reader that feeds a converter does - and the record->dict functions copy them (and n_jobs) unmodified;
+      `complete` is state == 'complete'
   R6  who may write job_group_self_and_ancestors, and how: only the self row (g, g, 0) and the unfiltered INSERT .. SELECT of every row of
       the parent with level + 1, for the group whose job_groups row the same function inserts, same transaction, for every non-root
       group.  Rows assembled in Python are decided by a chain abstraction (closure of X, shifted by k, with / without X's self row) over
@@ -25,11 +26,14 @@
   R8  atomicity of the completion step (same abstract execution, ordered trace of writes and transaction statements with CALLed procedures inlined):
       on every abstract path the write that makes the job terminal, the tally increments and the completion writes for the batch and every ancestor
       group are in ONE transaction - no COMMIT / START TRANSACTION / ROLLBACK between them (a retried call finds the job terminal and does nothing)
-  R9  the reported status is read from the database by the request that reports it (engines/c0506facts.py part 3, provenance dataflow): the record
-      given to batch_record_to_dict / job_group_record_to_dict is a query result of the same invocation; no status reader - up to the HTTP / UI
-      handlers - returns a value read back from state that outlives the request and holds status dicts (app[...] entries, module / class level
-      containers, cache objects built around a reader); no reader or converter is memoised by a decorator
-Not decided: histories; callbacks' payloads (reporting only).
+  R9  the reported status is read from the database by the request that reports it (engines/c0506facts.py part 3, provenance dataflow with function
+      summaries; WHO MAY STORE into state that outlives the request is decided interprocedurally - a helper's parameter is whatever its call sites
+      pass, decorator applications and helper modules of the package included): the record given to batch_record_to_dict / job_group_record_to_dict is a
+      query result of the same invocation; no status reader - up to the HTTP / UI handlers, and any helper, method, wrapper or converter that answers
+      from such state - returns, sends (driver callbacks) or patches into the completion fields of its answer a value read back from state that outlives
+      the request and holds status dicts / fields of status rows (app[...] entries, module / class level containers, `global` names, function attributes,
+      mutable defaults, variables of a decorator or factory, cache objects built around a reader); no reader or converter is memoised by a decorator
+Not decided: histories; what the callbacks' payloads say beyond their provenance (R9).
 """
 from __future__ import annotations
 
@@ -348,6 +352,17 @@ def r5(ctx: Ctx) -> None:
         okj = any(x in on for x in (f'(job_groups.batch_id = {TALLY}.id)', f'({TALLY}.id = job_groups.batch_id)', f'(batches.id = {TALLY}.id)', f'({TALLY}.id = batches.id)')) and \
             any(x in on for x in (f'(job_groups.job_group_id = {TALLY}.job_group_id)', f'({TALLY}.job_group_id = job_groups.job_group_id)'))
         ctx.check(okc and okj, 'R5', cons + '::tally source', f'the reported counts are not read from {TALLY} joined on the entity\'s own (batch_id, job_group_id) (ON {on})', m.path, e.lineno)
+        # EVERY query of the reader whose rows reach a record -> dict converter reads the tallies (a second, cheaper query for batches the process
+        # believes finished would report counts that are not the counts over the jobs)
+        sp = _status_prov(m)[1]
+        seen_calls = []
+        for qi in cf.collect_queries(m, fn):
+            if any(qi.emb.call is x for x in seen_calls) or qi.emb.call.lineno not in sp.status_lines or qi.emb is e:
+                continue
+            seen_calls.append(qi.emb.call)
+            if not (qi.emb.sql_text and TALLY in qi.emb.sql_text):
+                ctx.bad('R5', cons + '::every status query reads the tallies', f'a second query of {q} feeds the record -> dict converter without reading {TALLY}: '
+                        f'`{(qi.emb.sql_text or "<not a literal>").strip()[:120]}`: on that path n_completed / n_succeeded / n_failed / n_cancelled (and with them state / complete) are not the counts over the jobs', m.path, qi.emb.call.lineno)
     bm = pf.load('batch/batch/batch.py')
     for fname in ('batch_record_to_dict', 'job_group_record_to_dict'):
         fn = bm.func(fname)
@@ -489,6 +504,15 @@ def r7(ctx: Ctx, prog: sf.SqlProgram) -> None:
               'the mapping the staging rows are built from', m.path, inc_.lineno)
 
 
+_SP_CACHE: Dict[str, tuple] = {}
+
+
+def _status_prov(m: pf.Module):
+    if m.path not in _SP_CACHE:
+        _SP_CACHE[m.path] = cf.check_status_provenance(m)
+    return _SP_CACHE[m.path]
+
+
 def r9(ctx: Ctx) -> None:
     """The status the service reports is read from the database by the request that reports it (engines/c0506facts.py part 3).  Completion and
     the counts live in the database and change under the readers' feet (commit_batch_update re-opens a complete batch, other replicas
@@ -506,7 +530,7 @@ def r9(ctx: Ctx) -> None:
     a converter is analysed."""
     rel = 'batch/batch/front_end/front_end.py'
     m = pf.load(rel)
-    findings, sp = cf.check_status_provenance(m)
+    findings, sp = _status_prov(m)
     for want in ('_get_batch', '_get_job_group'):
         ctx.need(any(sp.qual[i] == want for i in sp.readers), f'{rel}::{want} no longer reaches a record -> dict converter (status readers not recognised)')
     bm = pf.load('batch/batch/batch.py')
@@ -525,12 +549,16 @@ def r9(ctx: Ctx) -> None:
         n_readers += len(sp2.readers)
     undec = [f for _, f in results if f.status == 'undecided']
     anybad = False
+    seen = set()
     for mod, f in results:
+        if (f.status, f.construct) in seen:   # a helper module adopted by several analysed modules
+            continue
+        seen.add((f.status, f.construct))
         if f.status == 'ok':
             ctx.ok('R9', f.construct, f.message)
         elif f.status == 'bad':
             anybad = True
-            ctx.bad('R9', f.construct, f.message, mod.path, f.line)
+            ctx.bad('R9', f.construct, f.message, f.path or mod.path, f.line)
     ctx.need(not undec or anybad, (undec[0].construct + ': ' + undec[0].message) if undec else '')
     ctx.unit('status_readers', n_readers)
 
@@ -549,9 +577,11 @@ def run(ctx: Ctx) -> None:
              'a Python roll-up must not share one mutable object between accumulator slots', 3)
     ctx.rule('R8', 'atomicity of the completion step (abstract execution, statement order with CALLed procedures inlined): on every path of mark_job_complete the write that makes the job terminal, the tally increments and '
              'the completion writes for the batch and every ancestor group are in ONE transaction - no COMMIT / START TRANSACTION / ROLLBACK between them (a retried call takes the already-complete no-op branch)', 1)
-    ctx.rule('R9', 'reported status is read from the database by the request that reports it: the records given to the record -> dict converters are query results of the same invocation, no status reader '
-             '(up to the HTTP handlers) returns a status read back from state that outlives the request, none is memoised', 12)
-    ctx.assume('functions imported from other modules (json_response, render_template, ...) are pure in the sense that they answer from their arguments only')
+    ctx.rule('R9', 'reported status is read from the database by the request that reports it: the records given to the record -> dict converters are query results of the same invocation; no status reader '
+             '(up to the HTTP handlers; helpers, cache classes, decorators and helper modules followed), no converter and no callback sender returns / sends / patches into the completion fields a value '
+             'read back from state that outlives the request and into which status is stored (who may store: interprocedural); none is memoised', 16)
+    ctx.assume('functions imported from outside the batch package (json_response, render_template, ...) are pure in the sense that they answer from their arguments only; functions imported by name from modules of '
+               'the batch package are analysed')
     prog = sf.load_program()
     # every rule is evaluated even when an earlier one declines: a violation established by a recognised shape is reported, otherwise the first decline stands
     first = None
